@@ -42,7 +42,8 @@ CONSTANTS
   Weak_HandshakeReplaysCommitted,  \* ReplayBlocks uses the real app when app = store = state+1
   Weak_InitChainAlways,            \* Handshake sends InitChain whatever the app height is
   Weak_CommitWithoutMempoolLock,   \* BlockExecutor.Commit does not lock the mempool
-  Weak_NoFlushBeforeCommit         \* BlockExecutor.Commit does not flush the mempool connection
+  Weak_NoFlushBeforeCommit,        \* BlockExecutor.Commit does not flush the mempool connection
+  Weak_NoEndHeightRepair           \* catchupReplay does not write a missing #ENDHEIGHT of the last committed block
 
 Nil == "nil"
 
@@ -134,6 +135,9 @@ InitState(c) == [
   ss_last   |-> [h |-> 0, vu |-> FALSE, pu |-> FALSE],   \* lastABCIResponseKey
   \* ---- durable: WAL (markers and the messages that matter for catch-up)
   wal       |-> << [t |-> "end", h |-> 0, k |-> ""] >>,  \* BaseWAL.OnStart writes #ENDHEIGHT 0
+  \* ---- durable: the validator key's last-sign state (privval/file.go FilePVLastSignState), as far
+  \* as it matters here: height, and how far round 0 got (1 proposal, 2 prevote, 3 precommit signed)
+  pv        |-> [h |-> 0, step |-> 0],
   \* ---- the application (survives the node's crashes)
   app_h     |-> 0,
   app_hash  |-> Hash0,
@@ -183,6 +187,12 @@ DecisionInWal(w, h) == HasEnd(w, h - 1) /\
                        \E k \in DOMAIN w : k > FirstEnd(w, h - 1) /\ w[k].t = "msg" /\ w[k].h = h /\ w[k].k = "precommit"
 
 Fail(s, why) == [s EXCEPT !.pc = "Panic", !.err = why]
+\* The node starts height cs_h WITHOUT replaying its WAL.  If the key already signed a vote in
+\* round 0 of this height (in an earlier incarnation) FilePV refuses both a new proposal ("step
+\* regression") and any other vote ("conflicting data"): alone, the node cannot leave round 0.
+Fresh(s) == IF s.pv.h = s.cs_h /\ s.pv.step >= 2
+            THEN [s EXCEPT !.pc = "Stalled", !.err = "privval refuses to re-sign round 0 and the WAL cannot be replayed"]
+            ELSE [s EXCEPT !.pc = "CS"]
 HsErr(s, why) == [s EXCEPT !.pc = "HS_Error", !.err = why]
 
 \* where ApplyBlock goes after the last write of state.Save
@@ -297,15 +307,25 @@ Do(s) ==
        THEN Fail(s, "failed to reconstruct last commit")
        ELSE [s EXCEPT !.cs_h = s.st.h + 1, !.cs_n = 0, !.pc = "R_Catchup"]
   [] s.pc = "R_Catchup" ->            \* catchupReplay(cs.Height); errors are logged and the node starts anyway
-       IF HasEnd(s.wal, s.cs_h) THEN [s EXCEPT !.cu = "wal should not contain #ENDHEIGHT", !.pc = "CS"]
-       ELSE IF ~HasEnd(s.wal, s.cs_h - 1) THEN [s EXCEPT !.cu = "WAL does not contain #ENDHEIGHT", !.pc = "CS"]
+       IF HasEnd(s.wal, s.cs_h) THEN Fresh([s EXCEPT !.cu = "wal should not contain #ENDHEIGHT"])
+       ELSE IF ~HasEnd(s.wal, s.cs_h - 1)
+            THEN IF ~Weak_NoEndHeightRepair /\ s.cs_h > 1 /\ s.st.h = s.cs_h - 1 /\ s.bs_h >= s.cs_h - 1
+                 THEN [s EXCEPT !.pc = "R_RepairEndHeight"]
+                 ELSE Fresh([s EXCEPT !.cu = "WAL does not contain #ENDHEIGHT"])
        ELSE IF DecisionInWal(s.wal, s.cs_h) THEN [s EXCEPT !.cu = "", !.cs_n = 2, !.pc = "CS"]
-       ELSE [s EXCEPT !.cu = "", !.pc = "CS"]
+       ELSE [s EXCEPT !.cu = "", !.pc = "CS"]      \* what the WAL holds of cs_h is replayed, then the round goes on
+  [] s.pc = "R_RepairEndHeight" ->    \* the block of cs_h-1 is committed (Handshake finished it) but the crash fell between
+                                      \* SaveBlock and the #ENDHEIGHT write: write the marker now, before anything of cs_h
+       [s EXCEPT !.wal = Append(s.wal, [t |-> "end", h |-> s.cs_h - 1, k |-> ""]), !.cu = "", !.pc = "CS"]
   \* ======================================================================= consensus for height cs_h
   [] s.pc = "CS" ->                   \* WAL writes of the round (WriteSync for own messages)
        IF s.cs_h > c.maxh THEN [s EXCEPT !.pc = "Done"]
-       ELSE IF s.cs_n = 0 THEN [s EXCEPT !.wal = Append(s.wal, [t |-> "msg", h |-> s.cs_h, k |-> "other"]), !.cs_n = 1]
-       ELSE IF s.cs_n = 1 THEN [s EXCEPT !.wal = Append(s.wal, [t |-> "msg", h |-> s.cs_h, k |-> "precommit"]), !.cs_n = 2]
+       \* proposal + block parts reach the WAL; handling the last part signs the prevote
+       ELSE IF s.cs_n = 0 THEN [s EXCEPT !.wal = Append(s.wal, [t |-> "msg", h |-> s.cs_h, k |-> "other"]), !.cs_n = 1,
+                                         !.pv = [h |-> s.cs_h, step |-> 2]]
+       \* (prevote, then) the own precommit reaches the WAL
+       ELSE IF s.cs_n = 1 THEN [s EXCEPT !.wal = Append(s.wal, [t |-> "msg", h |-> s.cs_h, k |-> "precommit"]), !.cs_n = 2,
+                                         !.pv = [h |-> s.cs_h, step |-> 3]]
        ELSE [s EXCEPT !.pc = "FC_Start"]
   \* ======================================================================= finalizeCommit(cs_h)
   [] s.pc = "FC_Start" ->             \* blockExec.ValidateBlock; "if cs.blockStore.Height() < block.Height"
@@ -393,14 +413,14 @@ Do(s) ==
                  !.pc = "FC_UpdateToState"]
   [] s.pc = "FC_UpdateToState" ->     \* cs.updateToState(stateCopy); scheduleRound0
        [s EXCEPT !.cs_h = s.h + 1, !.cs_n = 0, !.mode = "none", !.pc = "CS"]
-  [] OTHER -> s                       \* Done, HS_Error, Panic: no further step
+  [] OTHER -> s                       \* Done, HS_Error, Panic, Stalled: no further step
 
 \* A process crash: volatile fields are lost, durable ones and the application stay.
 CrashOf(s, label) ==
   LET z == InitState(s.cfg) IN
   [z EXCEPT !.bs_h = s.bs_h, !.bs_base = s.bs_base, !.bs_w = s.bs_w,
             !.ss_saved = s.ss_saved, !.ss_st = s.ss_st, !.ss_vals = s.ss_vals, !.ss_params = s.ss_params,
-            !.ss_abci = s.ss_abci, !.ss_last = s.ss_last, !.wal = s.wal,
+            !.ss_abci = s.ss_abci, !.ss_last = s.ss_last, !.wal = s.wal, !.pv = s.pv,
             !.app_h = s.app_h, !.app_hash = s.app_hash, !.app_open = s.app_open,
             !.journal = Append(s.journal, JE("Crash", 0, 0)),
             !.crashes = s.crashes + 1, !.rolled = s.rolled, !.sched = Append(s.sched, label)]
@@ -429,8 +449,9 @@ AllPcs == SilentPcs \cup {"HS_Info", "HS_InitChain", "HS_SaveGenVals1", "HS_Save
   "FC_BSHash", "FC_BSCommit", "FC_BSSeen", "FC_BSState", "FC_WalEndHeight", "AB_Start", "AB_Begin", "AB_Deliver",
   "AB_End", "AB_SaveABCIResp1", "AB_SaveABCIResp2", "AB_MempoolLock", "AB_FlushMempoolConn", "AB_AppCommit",
   "AB_MempoolUpdate", "AB_MempoolUnlock", "AB_EvpoolUpdate", "AB_SaveVals", "AB_SaveParams", "AB_SaveStateKey",
-  "AB_Finish", "FC_PruneBSState", "FC_PruneBSBatch", "FC_PruneSSBatch", "Done", "HS_Error", "Panic"}
-Terminal(s) == s.pc \in {"Done", "HS_Error", "Panic"}
+  "AB_Finish", "FC_PruneBSState", "FC_PruneBSBatch", "FC_PruneSSBatch", "R_RepairEndHeight", "Done", "HS_Error",
+  "Panic", "Stalled"}
+Terminal(s) == s.pc \in {"Done", "HS_Error", "Panic", "Stalled"}
 \* a crash immediately before a silent step is the same as before the next operation
 Crashable(s) == ~Terminal(s) /\ s.pc \notin SilentPcs /\ ~(s.pc = "CS" /\ s.cs_n >= 2)
 
@@ -444,7 +465,7 @@ CursorsWithinOneAt(s) == /\ s.bs_h \in {s.ss_st.h, s.ss_st.h + 1}
                          /\ (~s.rolled => s.app_h >= s.ss_st.h)
                          /\ s.app_h <= s.bs_h
 WalEndImpliesStoredAt(s) == \A k \in DOMAIN s.wal : s.wal[k].t = "end" => s.wal[k].h <= s.bs_h
-NoStuckAt(s) == s.pc \notin {"HS_Error", "Panic"}
+NoStuckAt(s) == s.pc \notin {"HS_Error", "Panic", "Stalled"}
 MempoolBracketAt(s) == /\ (s.pc = "AB_AppCommit" /\ s.mode = "fc") => (s.lock /\ s.flushed)
                        /\ s.pc = "AB_MempoolUpdate" => s.lock
 ResponsesBeforeCommitAt(s) == (s.pc = "AB_AppCommit" /\ s.mode = "fc") => s.ss_last.h = s.h
